@@ -145,14 +145,15 @@ class ContentElement:
     '''Attaches the element to `doc`, or detaches it from its current owning
     `ContentDocument` if `doc` is `None`.'''
 
+    if self.parent() is not None:
+      raise RuntimeError("Element must be removed from parent first")
+
     if doc is None:
 
       # detaching
 
-      if self.parent() is not None:
-        raise RuntimeError("Element must be removed from parent first")
-
-      self.set_region(None)
+      if isinstance(self.get_doc(), ContentDocument) and self.get_doc().get_body() is self:
+        raise RuntimeError("Element is the body of the document")
 
     else:
 
@@ -162,10 +163,14 @@ class ContentElement:
         if e.is_attached():
           raise RuntimeError("Element must be detached first")
 
-    self._doc = doc
+    # pylint: disable=W0212
 
-    for e in self:
-      e.set_doc(doc)
+    for e in self.dfs_iterator():
+      if doc is None:
+        e._region = None
+      e._doc = doc
+
+    # pylint: enable=W0212
 
   # hierarchical structure
 
